@@ -1231,12 +1231,18 @@ pub mod judge {
         "map_erdos_renyi",
     ];
 
-    /// A fixed corpus: case `i` is a pure function of `i`.
+    /// A fixed corpus: case `i` is a pure function of `i`. Cases 0..CASES are the small band (orders
+    /// 2..=8, 1..=4 CPUs); cases CASES..CASES+CASES_LARGE the large band (orders 17 and 20 at 2..=4
+    /// CPUs: several rows per worker), which only the thorough tier runs.
     pub fn case(i: usize) -> Case {
         let mut rng = Rng::new(0xC17_0000 + i as u64);
         let kind = KINDS[i % KINDS.len()];
-        let t = 1 + ((i / KINDS.len()) % 4) as u8;
-        let n = 2 + (i / (KINDS.len() * 4)) % 7; // orders 2..=8
+        let (t, n) = if i < CASES {
+            (1 + ((i / KINDS.len()) % 4) as u8, 2 + (i / (KINDS.len() * 4)) % 7)
+        } else {
+            let j = i - CASES;
+            (2 + ((j / KINDS.len()) % 3) as u8, [17, 20][(j / (KINDS.len() * 3)) % 2])
+        };
         let p = [150, 400, 700, 950][(i / 7) % 4];
         let d = if kind == "list_is_semicomplete" { near_semicomplete(&mut rng, n, true) } else { random_dg(&mut rng, n, p) };
         let m = rng.range(1, n + 1);
@@ -1250,6 +1256,7 @@ pub mod judge {
     }
 
     pub const CASES: usize = 8 * 4 * 7;
+    pub const CASES_LARGE: usize = 8 * 3 * 2;
 
     fn obs<G: Order + Size + Vertices + Arcs>(g: &G) -> Result<Dg, String> {
         let v: Vec<usize> = g.vertices().collect();
